@@ -91,8 +91,8 @@ def eval3(c, val: Dict[str, Any]) -> frozenset:
         return ONLY_T
     if k == "false":
         return ONLY_F
-    if k.startswith("opaque"):
-        return BOTH
+    if k.startswith("opaque") or k == "lit":
+        return BOTH  # not a comparison of a governed field against a constant: free (also an integer literal)
     if k == "truthy":
         f = governed_read(c[1])
         if f is not None and f in val:
@@ -100,6 +100,8 @@ def eval3(c, val: Dict[str, Any]) -> frozenset:
         return BOTH
     if k == "cmp":
         a, b = c[2], c[3]
+        if a[0] == "glob" or b[0] == "glob":
+            return BOTH  # compared with a run-time value: not a comparison against a constant
         fa, fb = governed_read(a), governed_read(b)
         # a read through the absolute index the governed transaction itself occupies is a read of its own field
         if isinstance(fa, tuple) and fa[0] == "abs" and fa not in val and val.get("__own_index__") == fa[1]:
@@ -129,7 +131,7 @@ def cond_fields(c, acc: Optional[Set[str]] = None) -> Set[str]:
     if k == "cmp":
         for o, other in ((c[2], c[3]), (c[3], c[2])):
             f = governed_read(o)
-            if f is not None and other[0] != "read":
+            if f is not None and other[0] not in ("read", "glob"):
                 acc.add(f)
     elif k == "truthy":
         f = governed_read(c[1])
